@@ -15,7 +15,7 @@
    `comment_flag_fixed = true`); for the pinned code the central statement is false, see
    C08_ws_filter_spec_refuted_pinned. *)
 From TeraV Require Import Model.Value Model.Utf8 Model.Lexer Spec.Doc Model.LexerDoc
-  Proofs.Utf8Proofs Proofs.WsFilterProofs Proofs.LexerProofs Proofs.LexerSpans.
+  Proofs.Utf8Proofs Proofs.WsFilterProofs Proofs.LexerProofs Proofs.LexerSpans Proofs.LexerLocal.
 Require Import Coq.Strings.String Coq.Strings.Ascii.
 
 (* validate accepts exactly: six 2-byte strings, the three start delimiters pairwise distinct *)
@@ -104,6 +104,15 @@ Theorem C08_ws_patterns_are_white_space : forall cp, (cp <? 0x3100)%N = true ->
   is_ws_cp cp = match ws_strip (utf8_encode_cp cp) with Some (_, []) => true | _ => false end.
 Proof. exact ws_patterns_are_white_space. Qed.
 
+(* the expression/tag side condition of wf_doc is local: it can be established by running the
+   interior scanner on the item alone (source, marker, end delimiter), whatever follows — except
+   for the one end delimiter `--`, after which a further `-` changes the reading *)
+Theorem C08_inside_ends_by_item : forall e src r tail,
+  List.length e = 2%nat -> e <> [dash; dash] ->
+  inside_ends_model e (src ++ mk r ++ e) r [] ->
+  inside_ends_model e (src ++ mk r ++ e ++ tail) r tail.
+Proof. exact inside_ends_by_item. Qed.
+
 (* ---- about the full token stream (reused by C06 / C12) *)
 
 (* the span bookkeeping of `advance!` (line, column in characters, byte) is the line/column
@@ -128,6 +137,7 @@ Print Assumptions C08_ws_filter_spec_refuted_pinned.
 Print Assumptions C08_render_print_spec.
 Print Assumptions C08_no_start_delimiter_renders_itself.
 Print Assumptions C08_delimiter_respelling_invariant.
+Print Assumptions C08_inside_ends_by_item.
 Print Assumptions C08_spans_are_linecol.
 Print Assumptions C08_token_ranges_in_source.
 
